@@ -167,6 +167,10 @@ func Now() time.Time {
 	return t0
 }
 
+// ZeroOf: the zero value of the element type of a channel (declares the variable of `for x := range ch` in
+// front of the loop when the module's language version has one variable per loop).
+func ZeroOf[T any](c <-chan T) (z T) { return }
+
 // MapKeys returns the keys of m in the order a `for range` over m is to visit
 // them: native order in pass-through, sorted order by default in an execution,
 // any explorer-chosen order when MapChoice is set (all k! orders for k<=4, the
